@@ -62,12 +62,22 @@ def _set_entries(net, table, index, preserve_dtypes=True, **entries):
         # only get dtypes of columns that are set and that are already present in the table
         dtypes = net[table][np.intersect1d(net[table].columns, list(entries.keys()))].dtypes
 
-    for col, val in entries.items():
-        net[table].at[index, col] = val
+    new_columns = [col for col in entries.keys() if col not in net[table].columns]
+    try:
+        for col, val in entries.items():
+            net[table].at[index, col] = val
 
-    # and preserve dtypes
-    if preserve_dtypes:
-        _preserve_dtypes(net[table], dtypes)
+        # and preserve dtypes
+        if preserve_dtypes:
+            _preserve_dtypes(net[table], dtypes)
+    except Exception:
+        # a value cannot be stored in its column: remove the partly written row again
+        if index in net[table].index:
+            net[table].drop(index, inplace=True)
+        net[table].drop(columns=[col for col in new_columns if col in net[table].columns], inplace=True)
+        if preserve_dtypes:
+            _preserve_dtypes(net[table], dtypes)
+        raise
 
 
 def _set_multiple_entries(net, table, index, preserve_dtypes=True, defaults_to_fill=None,
@@ -85,6 +95,7 @@ def _set_multiple_entries(net, table, index, preserve_dtypes=True, defaults_to_f
         return val
 
     entries = {k: check_entry(v) for k, v in entries.items()}
+    table_before = net[table]
 
     dd = pd.DataFrame(index=index, columns=net[table].columns)
     dd = dd.assign(**entries)
@@ -108,7 +119,12 @@ def _set_multiple_entries(net, table, index, preserve_dtypes=True, defaults_to_f
 
     # and preserve dtypes
     if preserve_dtypes:
-        _preserve_dtypes(net[table], dtypes)
+        try:
+            _preserve_dtypes(net[table], dtypes)
+        except Exception:
+            # values that cannot be stored in their columns: the table stays as it was
+            net[table] = table_before
+            raise
 
 
 def create_empty_network(name="", fluid=None, add_stdtypes=True, sector=Sector.ALL):
